@@ -168,6 +168,19 @@ Section Run.
     { destruct l; cbn [pstep]; rewrite ?Hc; cbn; auto. }
     destruct (IH (pstep s l) E2) as [I1 I2]. split; congruence.
   Qed.
+
+  (* ... and nothing is produced any more: the source is not pulled again *)
+  Theorem cancel_stops_production : forall ls s, cancelled s = true ->
+    remaining (fold_left pstep ls s) = remaining s /\ outq (fold_left pstep ls s) = outq s.
+  Proof.
+    induction ls as [|l r IH]; intros s Hc; [split; reflexivity|]. cbn [fold_left].
+    assert (remaining (pstep s l) = remaining s /\ outq (pstep s l) = outq s /\ cancelled (pstep s l) = true) as (E1 & E2 & E3).
+    { destruct l; cbn [pstep]; rewrite ?Hc; cbn; auto. }
+    destruct (IH (pstep s l) E3) as [I1 I2]. split; congruence.
+  Qed.
+
+  Theorem cancel_is_cancelled : forall s, cancelled (pstep s PCancel) = true.
+  Proof. reflexivity. Qed.
 End Run.
 
 Example generator_example :
